@@ -404,7 +404,7 @@ def check_property(pid, tier, seed):
         json.dump(ev, f, indent=1, default=str)
     for l in lines:
         print(l)
-    print(f"{pid}: obligations={n_ob} discharged={n_dis} guards={len(guards)} runtime_cases={rt_total['cases']} violations={len(violations)} exit={exit_code} wall={ev['wall_s']}s")
+    print(f"{pid}: obligations={cov['obligations']} discharged={cov['discharged']} known-finding-sites={known_obs} guards={len(guards)} runtime_cases={rt_total['cases']} violations={len(violations)} exit={exit_code} wall={ev['wall_s']}s")
     if os.environ.get("VERIF_VERBOSE"):
         for (k, o), r in zip(all_obs, results):
             print("   ", "ok " if r.ok else "BAD", r.name, r.status, r.solver, round(r.time_s, 2))
